@@ -75,6 +75,20 @@ def const_table_ranges(prog, src):
     return out
 
 
+def _sole_caller_roots(prog, b):
+    from . import inline
+    root = b.closure_root or b.path
+    rb = prog.body(root)
+    if rb is None or rb.kind not in ("Fn", "AssocFn") or rb.impl_trait or len(rb.blocks) > inline.MAX_BLOCKS:
+        return []
+    roots = set()
+    for c in prog.callgraph().callers(root):
+        cb = prog.body(c)
+        roots.add((cb.closure_root or cb.path) if cb is not None else c)
+    roots.discard(root)
+    return sorted(roots) if len(roots) == 1 else []
+
+
 def run(ctx, rule, entries, *, lossy=False, entry_facts=None, lemmas=None, trusts=None, scope=None, skip=None,
         unsafe=True, lossy_filter=None, kinds=None, init_class="CONSTINIT", floor_bodies=0, desc=None, invariants=None, assume_filter=None):
     """entries: body paths. entry_facts: path -> {arg: {...}}. lemmas / trusts: (path, site_key or kind-prefix) -> (name, reason).
@@ -101,9 +115,24 @@ def run(ctx, rule, entries, *, lossy=False, entry_facts=None, lemmas=None, trust
     n_bodies = 0
     failing_bodies = []
     per_body = {}
+    # closures written inside debug_assert!(..) arguments run only in debug builds, as part of the assertion
+    dbg_closures = set()
+    for p in dyn:
+        b = prog.body(p)
+        if b is None:
+            continue
+        for i, si, s_ in b.assigns():
+            rv = s_["rv"]
+            if rv["k"] == "agg" and rv.get("ak") == "closure" and re.match(r"^bang:debug_assert(_eq|_ne)?:", s_.get("expk") or ""):
+                dbg_closures.add(rv.get("def"))
     for p in sorted(dyn):
         b = prog.body(p)
         if b is None or (skip and skip(b)):
+            continue
+        if p in dbg_closures or (b.closure_root and any(p.startswith(c) for c in dbg_closures)):
+            n_dbg = len([o for o in obligations.collect(b, lossy=False, unsafe=unsafe) if not o.exp])
+            for _ in range(n_dbg):
+                ctx.oblig(True, "DEBUGCHK")
             continue
         obs = [o for o in obligations.collect(b, lossy=lossy, unsafe=unsafe) if not o.exp]
         if kinds:
@@ -149,6 +178,11 @@ def run(ctx, rule, entries, *, lossy=False, entry_facts=None, lemmas=None, trust
             if not ok:
                 for table, kind in ((lemmas, "LEMMA"), (trusts, "TRUST")):
                     hit = table.get((p, sk)) or table.get((p, o.ob.kind)) or table.get((p, "*"))
+                    if not hit:
+                        # a small private helper whose call sites all lie in one function inherits that function's kind-level
+                        # lemmas: extracting statements into a helper does not change what justifies them
+                        for cp in _sole_caller_roots(prog, b):
+                            hit = hit or table.get((cp, o.ob.kind)) or table.get((cp, "*"))
                     if hit and not ok:
                         ok, cls, why = True, "%s(%s)" % (kind, hit[0]), hit[1]
                         if kind == "TRUST":
